@@ -149,3 +149,18 @@ claim("C15",
       "slicing and calibration as values.",
       "stack/ordering of storage events and guard tables on all abstract paths (path-sensitive abstract "
       "interpretation); who-may-read over the resolved call graph; stateless-handle classification", "DESIGN.md#c15")
+
+claim("C06",
+      "Static decision: the complete decision table of the view coordinate transformation is extracted from the "
+      "source (every abstract path) and its guards and result terms are evaluated on representatives -- windows x "
+      "integer indices -6..6 x ~680 slices (start/stop on both sides of the window, steps 1..3, negative steps) -- and "
+      "compared with Python/NumPy index semantics: integers outside the window are refused, every accepted index "
+      "selects exactly the NumPy selection shifted into the window, never an element outside it; ellipsis/padding "
+      "expansion equals NumPy's for ranks 1..4; window validity table of DataView.__init__ (given, non-empty, rank, "
+      "stop <= extent); the read and write side agree on 'no index' by identity with None; an invalid view reads empty "
+      "and refuses writes before touching storage; HDF5 subscript ValueError/TypeError surface as IndexError; only "
+      "0-dimensional read results are reshaped to one element; a view keeps nothing it has read. NOT decided: h5py's "
+      "own handling of the transformed index, fancy (list/array) indices, value equality with NumPy on real data.",
+      "decision-table extraction by path-sensitive abstract interpretation; evaluation of the extracted guards on "
+      "representatives against Python slice semantics; sibling comparison; stateless-handle classification",
+      "DESIGN.md#c06")
